@@ -404,6 +404,9 @@ func runC10(cfg lib.Cfg) error {
 					if jr.Heap > maxHeap {
 						maxHeap = jr.Heap
 					}
+					if jr.SpareDiff != "" {
+						fail("the outcome depends on bytes BEHIND the supplied data (slice with spare capacity): " + jr.SpareDiff)
+					}
 					switch obs.Kind {
 					case "panic":
 						fail("Scan panicked (" + obs.PanicMsg + ")")
